@@ -1,6 +1,7 @@
 package gosmt
 
 import (
+	"time"
 	"fmt"
 	"go/token"
 	"go/types"
@@ -63,7 +64,10 @@ func (e *Engine) transfer(st *State, to *ssa.BasicBlock) bool {
 	f := st.top()
 	from := f.block
 	f.visits[to.Index]++
-	if st.noPanic && e.maxLoop > 0 && f.visits[to.Index] > concreteLoopLimit && f.info.inLoop[to.Index] && !inHarnessSupport(to.Instrs[0]) {
+	if st.noPanic && e.maxLoop > 0 && f.info.inLoop[to.Index] && !inHarnessSupport(to.Instrs[0]) &&
+		(f.visits[to.Index] > concreteLoopLimit || (f.visits[to.Index] > 3000 && f.visits[to.Index]&0xff == 0 && time.Since(e.started) > 100*time.Second)) {
+		// (a loop still turning after 100 s and thousands of iterations is treated like one beyond the
+		// iteration limit: the verdict needs the native replay to hang as well)
 		// a loop of the code under test that keeps going with concrete conditions
 		e.prove(st, "loop", fmt.Sprintf("loop terminates (more than %d iterations)", concreteLoopLimit), e.tt.False, to.Instrs[0], "", nil)
 		return false
@@ -115,6 +119,9 @@ func (e *Engine) run(st *State, stop *ssa.BasicBlock, depth int) []*State {
 		}
 		if e.stats.Steps&0xfff == 0 && e.stats.Steps > 2_000_000 && memPressure.Load() {
 			e.abort("memory budget exceeded (process heap above GOSMT_MEM_GB)")
+		}
+		if e.stats.Steps&0xffff == 0 && !e.opts.Deadline.IsZero() && time.Now().After(e.opts.Deadline) {
+			e.abort("deadline exceeded")
 		}
 		if e.trace {
 			fmt.Printf("  [%d] %s: %v\n", len(st.frames), f.fn.Name(), ins)
